@@ -85,7 +85,10 @@ RULE = ('gen: one case per (catalogue entry, N, R, uniform tape, shuffle answer)
         'deterministic uniform tapes (Halton entries consume none: 1 case); shuffle answers: all n! permutations when '
         'the shuffled part has n <= 5 entries, else identity, reversal, every adjacent transposition and every rotation '
         '(all tapes x {identity, reversal}, first two tapes x the rest); the first case of every (entry, N, R) also '
-        'through Database.generate_draws; non-trivial = N*R >= 2; distinct = distinct (entry, N, R, tape, answer). '
+        'through Database.generate_draws; size sweeps ("any requested size"): every catalogue entry for every number of '
+        'draws 1..128 (thorough 400) with one observation and, where 7 divides it, 7 observations (first tape, first answer), '
+        'and get_latin_hypercube_draws for EVERY total size 1..256 (thorough 1024) as (1, T) and (7, T/7) (2 tapes x identity / '
+        'reversal x symmetric); a legal request that raises is a violation; non-trivial = N*R >= 2; distinct = distinct (entry, N, R, tape, answer). '
         'q: one case per (path, uniform input u): every u = (k+theta)/2^m (m = 16 quick / 19 thorough, theta by seed), '
         'every 2^-j (15 <= j <= 1020) and 1-2^-j (j <= 53) with small multiples, +-0..8 ulp and +-2^-j '
         'neighbours of 0.075, 0.425, 0.45, 0.5, 0.55, 0.575, 0.925, e^-25, 1-e^-25, a 399-point comb and the regular grids '
